@@ -35,6 +35,9 @@ Proof. reflexivity. Qed.
 Lemma sout_let env name e : sout' env (SLet name e)
   = if bstr_eqb name n_ij then None else match ceval ij env e with Some v => Some ([], env_set env name v) | None => None end.
 Proof. reflexivity. Qed.
+Lemma sout_letc env name body : sout' env (SLetC name body)
+  = if bstr_eqb name n_ij then None else match bout' env body with Some t => Some ([], env_set env name (VStr t)) | None => None end.
+Proof. reflexivity. Qed.
 Lemma sout_if env c th rest : sout' env (SIf c th rest)
   = match ceval ij env c with
     | Some v => match (if truthy v then bout' env th else eout' env rest) with Some t => Some (t, env) | None => None end
@@ -71,6 +74,10 @@ Lemma sgen_print_eq sc n e ds : sgen' sc n (SPrint e ds) = (JSAppend buf (cgen_p
 Lemma sgen_let sc n name e : sgen' sc n (SLet name e)
   = (JSVar (jsc_name name (n + 1)) (cgen sc e), (jsc_bind_pure sc name (jsc_name name (n + 1)), n + 1)).
 Proof. reflexivity. Qed.
+Lemma sgen_letc sc n name body : sgen' sc n (SLetC name body)
+  = let '(jb, n1) := bgen mode (jsc_name name (n + 1)) ([] :: sc) (n + 1) body in
+    (JSVarBlock (jsc_name name (n + 1)) jb, (jsc_bind_pure sc name (jsc_name name (n + 1)), n1)).
+Proof. reflexivity. Qed.
 Lemma sgen_if sc n c th rest : sgen' sc n (SIf c th rest)
   = let '(jt, n1) := bgen' ([] :: sc) n th in let '(jr, n2) := egen' sc n1 rest in (JSIf (cgen sc c) jt jr, (sc, n2)).
 Proof. reflexivity. Qed.
@@ -93,6 +100,8 @@ Proof. reflexivity. Qed.
 End Eqs.
 
 Lemma js_exec_var env g e : js_exec env (JSVar g e) = (v <- js_eval env e ;; Ok {| je_vars := aset (je_vars env) g v; je_data := je_data env |}).
+Proof. reflexivity. Qed.
+Lemma js_exec_varblock env g body : js_exec env (JSVarBlock g body) = jb_exec {| je_vars := aset (je_vars env) g (JStr []); je_data := je_data env |} body.
 Proof. reflexivity. Qed.
 Lemma js_exec_if env c th rest : js_exec env (JSIf c th rest) = (v <- js_eval env c ;; if js_truthy v then jb_exec env th else jl_exec env rest).
 Proof. reflexivity. Qed.
@@ -210,54 +219,60 @@ Proof.
   - exact H4.
 Qed.
 
-(* the scope and the counter after a statement *)
-Lemma sgen_after mode buf sc n s j sc' n' : sgen mode buf sc n s = (j, (sc', n')) ->
-  sc' = sc \/ (exists name e, s = SLet name e /\ sc' = jsc_bind_pure sc name (jsc_name name (n + 1)) /\ n' = n + 1).
-Proof.
-  destruct s; cbn [sgen]; intro H.
-  - inversion H; auto.
-  - inversion H; auto.
-  - inversion H; subst. right. eauto.
-  - destruct (bgen mode buf ([] :: sc) n th) as [jt n1]. destruct (egen mode buf sc n1 rest) as [jr n2]. inversion H; auto.
-  - destruct (kgen mode buf sc n cs) as [jc n1]. inversion H; auto.
-Qed.
-
-Lemma sgen_mono_all mode buf :
-  (forall s sc n j sc' n', sgen mode buf sc n s = (j, (sc', n')) -> n <= n')
-  /\ (forall b sc n jb n', bgen mode buf sc n b = (jb, n') -> n <= n')
-  /\ (forall e sc n jl n', egen mode buf sc n e = (jl, n') -> n <= n')
-  /\ (forall k sc n jk n', kgen mode buf sc n k = (jk, n') -> n <= n').
+(* the counter never decreases *)
+Lemma sgen_mono_all mode :
+  (forall s buf sc n j sc' n', sgen mode buf sc n s = (j, (sc', n')) -> n <= n')
+  /\ (forall b buf sc n jb n', bgen mode buf sc n b = (jb, n') -> n <= n')
+  /\ (forall e buf sc n jl n', egen mode buf sc n e = (jl, n') -> n <= n')
+  /\ (forall k buf sc n jk n', kgen mode buf sc n k = (jk, n') -> n <= n').
 Proof.
   apply cstmt_mutind.
-  - intros t sc n j sc' n' H. inversion H. lia.
-  - intros e ds sc n j sc' n' H. inversion H. lia.
-  - intros name e sc n j sc' n' H. inversion H. lia.
-  - intros c th IHt rest IHr sc n j sc' n' H. cbn [sgen] in H.
+  - intros t buf sc n j sc' n' H. inversion H. lia.
+  - intros e ds buf sc n j sc' n' H. inversion H. lia.
+  - intros name e buf sc n j sc' n' H. inversion H. lia.
+  - intros name body IHb buf sc n j sc' n' H. rewrite sgen_letc in H.
+    destruct (bgen mode (jsc_name name (n + 1)) ([] :: sc) (n + 1) body) as [jb n1] eqn:E1. inversion H; subst.
+    specialize (IHb _ _ _ _ _ E1). lia.
+  - intros c th IHt rest IHr buf sc n j sc' n' H. rewrite sgen_if in H.
     destruct (bgen mode buf ([] :: sc) n th) as [jt n1] eqn:E1. destruct (egen mode buf sc n1 rest) as [jr n2] eqn:E2. inversion H; subst.
-    specialize (IHt _ _ _ _ E1). specialize (IHr _ _ _ _ E2). lia.
-  - intros v cs IHk sc n j sc' n' H. cbn [sgen] in H. destruct (kgen mode buf sc n cs) as [jc n1] eqn:E1. inversion H; subst. eapply IHk; eauto.
-  - intros sc n jb n' H. inversion H. lia.
-  - intros s IHs r IHr sc n jb n' H. cbn [bgen] in H.
+    specialize (IHt _ _ _ _ _ E1). specialize (IHr _ _ _ _ _ E2). lia.
+  - intros v cs IHk buf sc n j sc' n' H. rewrite sgen_switch in H. destruct (kgen mode buf sc n cs) as [jc n1] eqn:E1. inversion H; subst. eapply IHk; eauto.
+  - intros buf sc n jb n' H. inversion H. lia.
+  - intros s IHs r IHr buf sc n jb n' H. rewrite bgen_cons in H.
     destruct (sgen mode buf sc n s) as [j [sc1 n1]] eqn:E1. destruct (bgen mode buf sc1 n1 r) as [jr n2] eqn:E2. inversion H; subst.
-    specialize (IHs _ _ _ _ _ E1). specialize (IHr _ _ _ _ E2). lia.
-  - intros sc n jl n' H. inversion H. lia.
-  - intros b IHb sc n jl n' H. cbn [egen] in H. destruct (bgen mode buf ([] :: sc) n b) as [jb n1] eqn:E1. inversion H; subst. eapply IHb; eauto.
-  - intros c th IHt rest IHr sc n jl n' H. cbn [egen] in H.
+    specialize (IHs _ _ _ _ _ _ E1). specialize (IHr _ _ _ _ _ E2). lia.
+  - intros buf sc n jl n' H. inversion H. lia.
+  - intros b IHb buf sc n jl n' H. rewrite egen_else in H. destruct (bgen mode buf ([] :: sc) n b) as [jb n1] eqn:E1. inversion H; subst. eapply IHb; eauto.
+  - intros c th IHt rest IHr buf sc n jl n' H. rewrite egen_elif in H.
     destruct (bgen mode buf ([] :: sc) n th) as [jt n1] eqn:E1. destruct (egen mode buf sc n1 rest) as [jr n2] eqn:E2. inversion H; subst.
-    specialize (IHt _ _ _ _ E1). specialize (IHr _ _ _ _ E2). lia.
-  - intros sc n jk n' H. inversion H. lia.
-  - intros b IHb sc n jk n' H. cbn [kgen] in H. destruct (bgen mode buf ([] :: sc) n b) as [jb n1] eqn:E1. inversion H; subst. eapply IHb; eauto.
-  - intros v vs b IHb rest IHr sc n jk n' H. cbn [kgen] in H.
+    specialize (IHt _ _ _ _ _ E1). specialize (IHr _ _ _ _ _ E2). lia.
+  - intros buf sc n jk n' H. inversion H. lia.
+  - intros b IHb buf sc n jk n' H. rewrite kgen_default in H. destruct (bgen mode buf ([] :: sc) n b) as [jb n1] eqn:E1. inversion H; subst. eapply IHb; eauto.
+  - intros v vs b IHb rest IHr buf sc n jk n' H. rewrite kgen_case in H.
     destruct (bgen mode buf ([] :: sc) n b) as [jb n1] eqn:E1. destruct (kgen mode buf sc n1 rest) as [jr n2] eqn:E2. inversion H; subst.
-    specialize (IHb _ _ _ _ E1). specialize (IHr _ _ _ _ E2). lia.
+    specialize (IHb _ _ _ _ _ E1). specialize (IHr _ _ _ _ _ E2). lia.
+Qed.
+
+(* the scope and the counter after a statement *)
+Lemma sgen_after mode buf sc n s j sc' n' : sgen mode buf sc n s = (j, (sc', n')) ->
+  sc' = sc \/ (exists name, sc' = jsc_bind_pure sc name (jsc_name name (n + 1)) /\ n + 1 <= n').
+Proof.
+  destruct s; intro H.
+  - inversion H; auto.
+  - inversion H; auto.
+  - inversion H; subst. right. exists name. split; [reflexivity|lia].
+  - rewrite sgen_letc in H. destruct (bgen mode (jsc_name name (n + 1)) ([] :: sc) (n + 1) body) as [jb n1] eqn:E1. inversion H; subst.
+    right. exists name. split; [reflexivity|]. exact (proj1 (proj2 (sgen_mono_all mode)) _ _ _ _ _ _ E1).
+  - rewrite sgen_if in H. destruct (bgen mode buf ([] :: sc) n th) as [jt n1]. destruct (egen mode buf sc n1 rest) as [jr n2]. inversion H; auto.
+  - rewrite sgen_switch in H. destruct (kgen mode buf sc n cs) as [jc n1]. inversion H; auto.
 Qed.
 
 Lemma ginv_after mode buf sc n s j sc' n' : sgen mode buf sc n s = (j, (sc', n')) -> ginv sc n buf -> ginv sc' n' buf.
 Proof.
-  intros H G. pose proof (proj1 (sgen_mono_all mode buf) _ _ _ _ _ _ H) as Hn.
-  destruct (sgen_after _ _ _ _ _ _ _ _ H) as [->|(name & e & -> & -> & ->)].
+  intros H G. pose proof (proj1 (sgen_mono_all mode) _ _ _ _ _ _ _ H) as Hn.
+  destruct (sgen_after _ _ _ _ _ _ _ _ H) as [->|(name & -> & Hn')].
   - eapply ginv_mono; eauto.
-  - apply ginv_bind. exact G.
+  - eapply ginv_mono; [exact Hn'|]. apply ginv_bind. exact G.
 Qed.
 
 Lemma strict_eq_prim sv cv : prim_value sv = true -> prim_value cv = true ->
@@ -267,19 +282,18 @@ Proof. destruct sv, cv; try discriminate; intros _ _; reflexivity. Qed.
 Section JsStmts.
 Variable ij : option value.
 Variable mode : N.
-Variable buf : bstr.
 
-Definition jinv (sc : list (list (bstr * bstr))) (env : bstr -> option value) (je : jenv) (old : bstr) : Prop :=
+Definition jinv (buf : bstr) (sc : list (list (bstr * bstr))) (env : bstr -> option value) (je : jenv) (old : bstr) : Prop :=
   env_rel sc ij env je /\ assoc_s buf (je_vars je) = Some (JStr old).
 (* a statement generated from counter n leaves opt_data and every variable alone that is not the buffer
    and whose name, read as a generated name, has a counter up to n *)
-Definition frame (n : N) (je je' : jenv) : Prop :=
+Definition frame (buf : bstr) (n : N) (je je' : jenv) : Prop :=
   je_data je' = je_data je
   /\ forall g, bounded n g -> bstr_eqb g buf = false -> assoc_s g (je_vars je') = assoc_s g (je_vars je).
 
-Lemma frame_refl n je : frame n je je.
+Lemma frame_refl buf n je : frame buf n je je.
 Proof. split; auto. Qed.
-Lemma frame_trans n n1 je je1 je2 : n <= n1 -> frame n je je1 -> frame n1 je1 je2 -> frame n je je2.
+Lemma frame_trans buf n n1 je je1 je2 : n <= n1 -> frame buf n je je1 -> frame buf n1 je1 je2 -> frame buf n je je2.
 Proof.
   intros Hn [D1 F1] [D2 F2]. split; [congruence|]. intros g Hg Hb. rewrite F2; auto. eapply bounded_mono; eauto.
 Qed.
@@ -287,7 +301,7 @@ Qed.
 Lemma env_rel_push sc env je : env_rel sc ij env je -> env_rel ([] :: sc) ij env je.
 Proof. intros [Ev Ei Ec Eci]. constructor; auto. Qed.
 
-Lemma env_rel_frame sc n env je je' : ginv sc n buf -> env_rel sc ij env je -> frame n je je' -> env_rel sc ij env je'.
+Lemma env_rel_frame buf sc n env je je' : ginv sc n buf -> env_rel sc ij env je -> frame buf n je je' -> env_rel sc ij env je'.
 Proof.
   intros [H0 H1 H2 H3 H4] [Ev Ei Ec Eci] [D F]. constructor; auto.
   - intros key Hk. specialize (Ev key Hk). destruct (jsc_lookup sc key) as [|c g] eqn:El.
@@ -296,17 +310,33 @@ Proof.
   - intros v Hv. rewrite F; [apply Ei; exact Hv|apply opt_ij_bounded|exact H4].
 Qed.
 
-Lemma jinv_frame sc n env je je' old new : ginv sc n buf -> jinv sc env je old -> frame n je je' ->
-  assoc_s buf (je_vars je') = Some (JStr new) -> jinv sc env je' new.
+Lemma jinv_frame buf sc n env je je' old new : ginv sc n buf -> jinv buf sc env je old -> frame buf n je je' ->
+  assoc_s buf (je_vars je') = Some (JStr new) -> jinv buf sc env je' new.
 Proof. intros G [ER _] F Hb. split; [eapply env_rel_frame; eauto|exact Hb]. Qed.
 
-Lemma append_frame n je x : frame n je {| je_vars := aset (je_vars je) buf x; je_data := je_data je |}.
+Lemma append_frame buf n je x : frame buf n je {| je_vars := aset (je_vars je) buf x; je_data := je_data je |}.
 Proof. split; [reflexivity|]. intros g _ Hg. cbn [je_vars]. apply assoc_s_aset_other. exact Hg. Qed.
 
-Lemma jinv_append sc n env je old t : ginv sc n buf -> jinv sc env je old ->
-  jinv sc env {| je_vars := aset (je_vars je) buf (JStr (old ++ t)); je_data := je_data je |} (old ++ t).
+Lemma jinv_append buf sc n env je old t : ginv sc n buf -> jinv buf sc env je old ->
+  jinv buf sc env {| je_vars := aset (je_vars je) buf (JStr (old ++ t)); je_data := je_data je |} (old ++ t).
 Proof.
-  intros G I. eapply jinv_frame; [exact G|exact I|apply (append_frame n)|apply assoc_s_aset].
+  intros G I. eapply jinv_frame; [exact G|exact I|apply (append_frame buf n)|apply assoc_s_aset].
+Qed.
+
+(* binding a Soy name to the fresh variable v_<n+1> that holds its value *)
+Lemma env_rel_bind buf sc n env je je' name v : ginv sc n buf -> env_rel sc ij env je -> frame buf n je je' ->
+  assoc_s (jsc_name name (n + 1)) (je_vars je') = Some (to_js v) -> core_value v = true ->
+  env_rel (jsc_bind_pure sc name (jsc_name name (n + 1))) ij (env_set env name v) je'.
+Proof.
+  intros G ER F Hg Hcv. pose proof (env_rel_frame buf sc n env je je' G ER F) as [Xv Xi Xc Xci].
+  destruct G as [G0 G1 G2 G3 G4]. constructor.
+  - intros key Hk. unfold env_val, env_set. destruct (bstr_eqb key name) eqn:Ekn.
+    + apply bstr_eqb_true in Ekn. subst key. rewrite jsc_lookup_bind_same by exact G0.
+      destruct (jsc_name_cons name (n + 1)) as (c & r & Hc). rewrite Hc. rewrite <- Hc. exact Hg.
+    + rewrite jsc_lookup_bind_other by exact Ekn. specialize (Xv key Hk). unfold env_val in Xv. exact Xv.
+  - exact Xi.
+  - intro key. unfold env_val, env_set. destruct (bstr_eqb key name); [exact Hcv|apply Xc].
+  - exact Xci.
 Qed.
 
 Lemma khit_js sc env je sv vs : env_rel sc ij env je -> prim_value sv = true -> forall h,
@@ -321,39 +351,39 @@ Proof.
     + apply IH. exact E.
 Qed.
 
-Definition JP_s (s : cstmt) : Prop := forall sc n env je old text env' j sc' n',
-  ginv sc n buf -> sout ij mode go_print_text env s = Some (text, env') -> jinv sc env je old ->
+Definition JP_s (s : cstmt) : Prop := forall buf sc n env je old text env' j sc' n',
+  ginv sc n buf -> sout ij mode go_print_text env s = Some (text, env') -> jinv buf sc env je old ->
   sgen mode buf sc n s = (j, (sc', n')) ->
-  exists je', js_exec je j = Ok je' /\ jinv sc' env' je' (old ++ text) /\ frame n je je'.
-Definition JP_b (b : cblk) : Prop := forall sc n env je old text jb n',
-  ginv sc n buf -> bout ij mode go_print_text env b = Some text -> jinv sc env je old ->
+  exists je', js_exec je j = Ok je' /\ jinv buf sc' env' je' (old ++ text) /\ frame buf n je je'.
+Definition JP_b (b : cblk) : Prop := forall buf sc n env je old text jb n',
+  ginv sc n buf -> bout ij mode go_print_text env b = Some text -> jinv buf sc env je old ->
   bgen mode buf sc n b = (jb, n') ->
-  exists je', jb_exec je jb = Ok je' /\ assoc_s buf (je_vars je') = Some (JStr (old ++ text)) /\ frame n je je'.
-Definition JP_e (e : celse) : Prop := forall sc n env je old text jl n',
-  ginv sc n buf -> eout ij mode go_print_text env e = Some text -> jinv sc env je old ->
+  exists je', jb_exec je jb = Ok je' /\ assoc_s buf (je_vars je') = Some (JStr (old ++ text)) /\ frame buf n je je'.
+Definition JP_e (e : celse) : Prop := forall buf sc n env je old text jl n',
+  ginv sc n buf -> eout ij mode go_print_text env e = Some text -> jinv buf sc env je old ->
   egen mode buf sc n e = (jl, n') ->
-  exists je', jl_exec je jl = Ok je' /\ assoc_s buf (je_vars je') = Some (JStr (old ++ text)) /\ frame n je je'.
-Definition JP_k (k : ccases) : Prop := forall sc n env je old text sv jk n',
-  ginv sc n buf -> prim_value sv = true -> kout ij mode go_print_text env sv k = Some text -> jinv sc env je old ->
+  exists je', jl_exec je jl = Ok je' /\ assoc_s buf (je_vars je') = Some (JStr (old ++ text)) /\ frame buf n je je'.
+Definition JP_k (k : ccases) : Prop := forall buf sc n env je old text sv jk n',
+  ginv sc n buf -> prim_value sv = true -> kout ij mode go_print_text env sv k = Some text -> jinv buf sc env je old ->
   kgen mode buf sc n k = (jk, n') ->
-  exists je', jk_exec je (to_js sv) jk = Ok je' /\ assoc_s buf (je_vars je') = Some (JStr (old ++ text)) /\ frame n je je'.
+  exists je', jk_exec je (to_js sv) jk = Ok je' /\ assoc_s buf (je_vars je') = Some (JStr (old ++ text)) /\ frame buf n je je'.
 
 (* a block is translated and run under one more (empty) frame *)
-Lemma JP_block b : JP_b b -> forall sc n env je old text jb n',
-  ginv sc n buf -> bout ij mode go_print_text env b = Some text -> jinv sc env je old ->
+Lemma JP_block b : JP_b b -> forall buf sc n env je old text jb n',
+  ginv sc n buf -> bout ij mode go_print_text env b = Some text -> jinv buf sc env je old ->
   bgen mode buf ([] :: sc) n b = (jb, n') ->
-  exists je', jb_exec je jb = Ok je' /\ assoc_s buf (je_vars je') = Some (JStr (old ++ text)) /\ frame n je je'.
+  exists je', jb_exec je jb = Ok je' /\ assoc_s buf (je_vars je') = Some (JStr (old ++ text)) /\ frame buf n je je'.
 Proof.
-  intros Hb sc n env je old text jb n' G E [ER Hbuf] Eg.
-  apply (Hb ([] :: sc) n env je old text jb n'); auto. apply ginv_push; exact G. split; [apply env_rel_push; exact ER|exact Hbuf].
+  intros Hb buf sc n env je old text jb n' G E [ER Hbuf] Eg.
+  apply (Hb buf ([] :: sc) n env je old text jb n'); auto. apply ginv_push; exact G. split; [apply env_rel_push; exact ER|exact Hbuf].
 Qed.
 
 Theorem js_exec_all : (forall s, JP_s s) /\ (forall b, JP_b b) /\ (forall e, JP_e e) /\ (forall k, JP_k k).
 Proof.
   apply cstmt_mutind.
-  - (* raw *) intros t sc n env je old text env' j sc' n' G E I Eg. rewrite sout_raw in E. rewrite sgen_raw in Eg. inversion E; subst. inversion Eg; subst.
+  - (* raw *) intros t buf sc n env je old text env' j sc' n' G E I Eg. rewrite sout_raw in E. rewrite sgen_raw in Eg. inversion E; subst. inversion Eg; subst.
     cbn [js_exec]. unfold js_append_text. rewrite (proj2 I). eexists. split; [reflexivity|]. split; [eapply jinv_append; eauto|apply append_frame].
-  - (* print *) intros e ds sc n env je old text env' j sc' n' G E I Eg. rewrite sout_print in E. rewrite sgen_print_eq in Eg. inversion Eg; subst. clear Eg.
+  - (* print *) intros e ds buf sc n env je old text env' j sc' n' G E I Eg. rewrite sout_print in E. rewrite sgen_print_eq in Eg. inversion Eg; subst. clear Eg.
     destruct (ceval ij env e) as [v|] eqn:Ev; [|discriminate]. destruct (scalar_string v) as [str|] eqn:Es; [|discriminate].
     destruct (cleanb str) eqn:Ec; [|discriminate]. inversion E; subst. clear E.
     destruct (scalar_string_ok v str Es) as (Hp & Hvs & Ht). destruct I as [ER Hb].
@@ -362,87 +392,109 @@ Proof.
     rewrite (print_text_agree mode ds str (cleanb_ok _ Ec)) in Tj.
     cbn [js_exec]. unfold js_append. rewrite Ej. cbn [bind]. rewrite Tj, Hb. cbn [bind snd]. eexists. split; [reflexivity|].
     split; [eapply jinv_append; eauto; split; assumption|apply append_frame].
-  - (* let *) intros name e sc n env je old text env' j sc' n' G E I Eg. rewrite sout_let in E. rewrite sgen_let in Eg. inversion Eg; subst. clear Eg.
+  - (* let *) intros name e buf sc n env je old text env' j sc' n' G E I Eg. rewrite sout_let in E. rewrite sgen_let in Eg. inversion Eg; subst. clear Eg.
     destruct (bstr_eqb name n_ij) eqn:Hnij; [discriminate|]. destruct (ceval ij env e) as [v|] eqn:Ev; [|discriminate]. inversion E; subst. clear E.
     destruct I as [ER Hb]. destruct (cgen_correct sc ij env je ER e v Ev) as [Hj Hcv].
     rewrite js_exec_var, Hj. cbn [bind]. eexists. split; [reflexivity|]. rewrite app_nil_r.
     set (g := jsc_name name (n + 1)).
     assert (Hbg : bstr_eqb buf g = false) by (apply bounded_fresh; apply G).
-    assert (Hfr : frame n je {| je_vars := aset (je_vars je) g (to_js v); je_data := je_data je |}).
+    assert (Hfr : frame buf n je {| je_vars := aset (je_vars je) g (to_js v); je_data := je_data je |}).
     { split; [reflexivity|]. intros g0 H0 _. cbn [je_vars]. apply assoc_s_aset_other. apply bounded_fresh. exact H0. }
     split; [|exact Hfr]. split; [|cbn [je_vars]; rewrite assoc_s_aset_other by exact Hbg; exact Hb].
-    destruct G as [G0 G1 G2 G3 G4]. destruct ER as [Xv Xi Xc Xci]. constructor; cbn [je_vars je_data].
-    + intros key Hk. unfold env_val, env_set. destruct (bstr_eqb key name) eqn:Ekn.
-      * apply bstr_eqb_true in Ekn. subst key. rewrite jsc_lookup_bind_same by exact G0. fold g.
-        destruct (jsc_name_cons name (n + 1)) as (c & r & Hg). fold g in Hg. rewrite Hg. rewrite <- Hg. apply assoc_s_aset.
-      * rewrite jsc_lookup_bind_other by exact Ekn. specialize (Xv key Hk). unfold env_val in Xv.
-        destruct (jsc_lookup sc key) as [|c r] eqn:El; [exact Xv|]. rewrite assoc_s_aset_other; [exact Xv|].
-        rewrite <- El. apply bounded_fresh. apply G1.
-    + intros x Hx. rewrite assoc_s_aset_other; [apply Xi; exact Hx|]. apply bounded_fresh. apply opt_ij_bounded.
-    + intro key. unfold env_val, env_set. destruct (bstr_eqb key name); [exact Hcv|apply Xc].
-    + exact Xci.
-  - (* if *) intros c th IHt rest IHr sc n env je old text env' j sc' n' G E I Eg. rewrite sout_if in E. rewrite sgen_if in Eg.
+    apply (env_rel_bind buf sc n env je _ name v G ER Hfr); [apply assoc_s_aset|exact Hcv].
+  - (* let, content form *) intros name body IHb buf sc n env je old text env' j sc' n' G E I Eg. rewrite sout_letc in E. rewrite sgen_letc in Eg.
+    destruct (bstr_eqb name n_ij) eqn:Hnij; [discriminate|].
+    destruct (bout ij mode go_print_text env body) as [t|] eqn:Et; [|discriminate]. inversion E; subst. clear E.
+    set (g := jsc_name name (n + 1)) in *.
+    destruct (bgen mode g ([] :: sc) (n + 1) body) as [jb n1] eqn:E1. inversion Eg; subst. clear Eg.
+    destruct I as [ER Hb]. rewrite js_exec_varblock.
+    set (je0 := {| je_vars := aset (je_vars je) g (JStr []); je_data := je_data je |}).
+    assert (Hbg : bstr_eqb buf g = false) by (apply bounded_fresh; apply G).
+    assert (F0 : frame buf n je je0).
+    { split; [reflexivity|]. intros g0 H0 _. cbn [je_vars]. apply assoc_s_aset_other. apply bounded_fresh. exact H0. }
+    (* the body runs with the new variable as its buffer *)
+    assert (G' : ginv sc (n + 1) g).
+    { destruct G as [G0 G1 G2 G3 G4]. constructor.
+      - exact G0.
+      - intro key. eapply bounded_mono; [|apply G1]. lia.
+      - apply bounded_new.
+      - intro key. apply bounded_fresh. apply G1.
+      - apply bounded_fresh. apply opt_ij_bounded. }
+    assert (I0 : jinv g sc env je0 []).
+    { split; [exact (env_rel_frame buf sc n env je je0 G ER F0)|]. exact (assoc_s_aset g (JStr []) (je_vars je)). }
+    destruct (JP_block body IHb g sc (n + 1) env je0 [] t jb n' G' Et I0 E1) as (je1 & X1 & Hg1 & [D1 F1]).
+    exists je1. split; [exact X1|]. rewrite app_nil_r. cbn [app] in Hg1.
+    (* seen from outside: only variables with newer counters, and g, were touched *)
+    assert (F : frame buf n je je1).
+    { split; [rewrite D1; reflexivity|]. intros g0 H0 Hb0. rewrite F1.
+      - cbn [je_vars je0]. apply assoc_s_aset_other. apply bounded_fresh. exact H0.
+      - eapply bounded_mono; [|exact H0]. lia.
+      - apply bounded_fresh. exact H0. }
+    split; [|exact F]. split.
+    + apply (env_rel_bind buf sc n env je je1 name (VStr t) G ER F); [exact Hg1|reflexivity].
+    + rewrite F1; [|eapply bounded_mono; [|apply (gi_buf _ _ _ G)]; lia|exact Hbg]. cbn [je_vars je0]. rewrite assoc_s_aset_other by exact Hbg. exact Hb.
+  - (* if *) intros c th IHt rest IHr buf sc n env je old text env' j sc' n' G E I Eg. rewrite sout_if in E. rewrite sgen_if in Eg.
     destruct (bgen mode buf ([] :: sc) n th) as [jt n1] eqn:E1. destruct (egen mode buf sc n1 rest) as [jr n2] eqn:E2. inversion Eg; subst. clear Eg.
     destruct (ceval ij env c) as [v|] eqn:Ev; [|discriminate].
     pose proof I as [ER Hb]. destruct (cgen_correct sc' ij env je ER c v Ev) as [Hj Hcv].
     rewrite js_exec_if, Hj. cbn [bind]. rewrite truthy_js by exact Hcv.
-    pose proof (proj1 (proj2 (sgen_mono_all mode buf)) _ _ _ _ _ E1) as Hn1.
+    pose proof (proj1 (proj2 (sgen_mono_all mode)) _ _ _ _ _ _ E1) as Hn1.
     destruct (truthy v).
     + destruct (bout ij mode go_print_text env th) as [t|] eqn:Et; [|discriminate]. inversion E; subst. clear E.
-      destruct (JP_block th IHt sc' n env' je old text jt n1 G Et I E1) as (je' & X & Hb' & F).
+      destruct (JP_block th IHt buf sc' n env' je old text jt n1 G Et I E1) as (je' & X & Hb' & F).
       exists je'. split; [exact X|]. split; [eapply jinv_frame; eauto|exact F].
     + destruct (eout ij mode go_print_text env rest) as [t|] eqn:Et; [|discriminate]. inversion E; subst. clear E.
-      destruct (IHr sc' n1 env' je old text jr n' (ginv_mono _ _ _ _ Hn1 G) Et I E2) as (je' & X & Hb' & F).
-      assert (F' : frame n je je') by (eapply frame_trans; [exact Hn1|apply frame_refl|exact F]).
+      destruct (IHr buf sc' n1 env' je old text jr n' (ginv_mono _ _ _ _ Hn1 G) Et I E2) as (je' & X & Hb' & F).
+      assert (F' : frame buf n je je') by (eapply frame_trans; [exact Hn1|apply frame_refl|exact F]).
       exists je'. split; [exact X|]. split; [eapply jinv_frame; eauto|exact F'].
-  - (* switch *) intros v cs IHk sc n env je old text env' j sc' n' G E I Eg. rewrite sout_switch in E. rewrite sgen_switch in Eg.
+  - (* switch *) intros v cs IHk buf sc n env je old text env' j sc' n' G E I Eg. rewrite sout_switch in E. rewrite sgen_switch in Eg.
     destruct (kgen mode buf sc n cs) as [jc n1] eqn:E1. inversion Eg; subst. clear Eg.
     destruct (ceval ij env v) as [sv|] eqn:Ev; [|discriminate]. destruct (prim_value sv) eqn:Hp; [|discriminate].
     destruct (kout ij mode go_print_text env sv cs) as [t|] eqn:Et; [|discriminate]. inversion E; subst. clear E.
     pose proof I as [ER Hb]. destruct (cgen_correct sc' ij env' je ER v sv Ev) as [Hj Hcv].
     rewrite js_exec_switch, Hj. cbn [bind].
-    destruct (IHk sc' n env' je old text sv jc n' G Hp Et I E1) as (je' & X & Hb' & F).
+    destruct (IHk buf sc' n env' je old text sv jc n' G Hp Et I E1) as (je' & X & Hb' & F).
     exists je'. split; [exact X|]. split; [eapply jinv_frame; eauto|exact F].
-  - (* BNil *) intros sc n env je old text jb n' G E I Eg. rewrite bout_nil in E. rewrite bgen_nil in Eg. inversion E; subst. inversion Eg; subst.
+  - (* BNil *) intros buf sc n env je old text jb n' G E I Eg. rewrite bout_nil in E. rewrite bgen_nil in Eg. inversion E; subst. inversion Eg; subst.
     exists je. rewrite app_nil_r. split; [reflexivity|]. split; [apply I|apply frame_refl].
-  - (* BCons *) intros s IHs r IHr sc n env je old text jb n' G E I Eg. rewrite bout_cons in E. rewrite bgen_cons in Eg.
+  - (* BCons *) intros s IHs r IHr buf sc n env je old text jb n' G E I Eg. rewrite bout_cons in E. rewrite bgen_cons in Eg.
     destruct (sgen mode buf sc n s) as [j [sc1 n1]] eqn:E1. destruct (bgen mode buf sc1 n1 r) as [jr n2] eqn:E2. inversion Eg; subst. clear Eg.
     destruct (sout ij mode go_print_text env s) as [[a env1]|] eqn:Ea; [|discriminate].
     destruct (bout ij mode go_print_text env1 r) as [c|] eqn:Ec; [|discriminate]. inversion E; subst. clear E.
-    destruct (IHs sc n env je old a env1 j sc1 n1 G Ea I E1) as (je1 & X1 & I1 & F1).
-    pose proof (ginv_after _ _ _ _ _ _ _ _ E1 G) as G1. pose proof (proj1 (sgen_mono_all mode buf) _ _ _ _ _ _ E1) as Hn1.
-    destruct (IHr sc1 n1 env1 je1 (old ++ a) c jr n' G1 Ec I1 E2) as (je2 & X2 & Hb2 & F2).
+    destruct (IHs buf sc n env je old a env1 j sc1 n1 G Ea I E1) as (je1 & X1 & I1 & F1).
+    pose proof (ginv_after _ _ _ _ _ _ _ _ E1 G) as G1. pose proof (proj1 (sgen_mono_all mode) _ _ _ _ _ _ _ E1) as Hn1.
+    destruct (IHr buf sc1 n1 env1 je1 (old ++ a) c jr n' G1 Ec I1 E2) as (je2 & X2 & Hb2 & F2).
     exists je2. rewrite jb_exec_cons, X1. cbn [bind]. split; [exact X2|]. split; [rewrite app_assoc; exact Hb2|eapply frame_trans; eauto].
-  - (* ENone *) intros sc n env je old text jl n' G E I Eg. rewrite eout_none in E. rewrite egen_none in Eg. inversion E; subst. inversion Eg; subst.
+  - (* ENone *) intros buf sc n env je old text jl n' G E I Eg. rewrite eout_none in E. rewrite egen_none in Eg. inversion E; subst. inversion Eg; subst.
     exists je. rewrite app_nil_r. split; [reflexivity|]. split; [apply I|apply frame_refl].
-  - (* EElse *) intros b IHb sc n env je old text jl n' G E I Eg. rewrite eout_else in E. rewrite egen_else in Eg.
+  - (* EElse *) intros b IHb buf sc n env je old text jl n' G E I Eg. rewrite eout_else in E. rewrite egen_else in Eg.
     destruct (bgen mode buf ([] :: sc) n b) as [jb n1] eqn:E1. inversion Eg; subst. clear Eg.
-    exact (JP_block b IHb sc n env je old text jb n' G E I E1).
-  - (* EElif *) intros c th IHt rest IHr sc n env je old text jl n' G E I Eg. rewrite eout_elif in E. rewrite egen_elif in Eg.
+    exact (JP_block b IHb buf sc n env je old text jb n' G E I E1).
+  - (* EElif *) intros c th IHt rest IHr buf sc n env je old text jl n' G E I Eg. rewrite eout_elif in E. rewrite egen_elif in Eg.
     destruct (bgen mode buf ([] :: sc) n th) as [jt n1] eqn:E1. destruct (egen mode buf sc n1 rest) as [jr n2] eqn:E2. inversion Eg; subst. clear Eg.
     destruct (ceval ij env c) as [v|] eqn:Ev; [|discriminate].
     pose proof I as [ER Hb]. destruct (cgen_correct sc ij env je ER c v Ev) as [Hj Hcv].
     rewrite jl_exec_elif, Hj. cbn [bind]. rewrite truthy_js by exact Hcv.
-    pose proof (proj1 (proj2 (sgen_mono_all mode buf)) _ _ _ _ _ E1) as Hn1.
+    pose proof (proj1 (proj2 (sgen_mono_all mode)) _ _ _ _ _ _ E1) as Hn1.
     destruct (truthy v).
-    + exact (JP_block th IHt sc n env je old text jt n1 G E I E1).
-    + destruct (IHr sc n1 env je old text jr n' (ginv_mono _ _ _ _ Hn1 G) E I E2) as (je' & X & Hb' & F).
+    + exact (JP_block th IHt buf sc n env je old text jt n1 G E I E1).
+    + destruct (IHr buf sc n1 env je old text jr n' (ginv_mono _ _ _ _ Hn1 G) E I E2) as (je' & X & Hb' & F).
       exists je'. split; [exact X|]. split; [exact Hb'|]. eapply frame_trans; [exact Hn1|apply frame_refl|exact F].
-  - (* KNone *) intros sc n env je old text sv jk n' G Hp E I Eg. rewrite kout_none in E. rewrite kgen_none in Eg. inversion E; subst. inversion Eg; subst.
+  - (* KNone *) intros buf sc n env je old text sv jk n' G Hp E I Eg. rewrite kout_none in E. rewrite kgen_none in Eg. inversion E; subst. inversion Eg; subst.
     exists je. rewrite app_nil_r. split; [reflexivity|]. split; [apply I|apply frame_refl].
-  - (* KDefault *) intros b IHb sc n env je old text sv jk n' G Hp E I Eg. rewrite kout_default in E. rewrite kgen_default in Eg.
+  - (* KDefault *) intros b IHb buf sc n env je old text sv jk n' G Hp E I Eg. rewrite kout_default in E. rewrite kgen_default in Eg.
     destruct (bgen mode buf ([] :: sc) n b) as [jb n1] eqn:E1. inversion Eg; subst. clear Eg.
-    exact (JP_block b IHb sc n env je old text jb n' G E I E1).
-  - (* KCase *) intros v vs b IHb rest IHr sc n env je old text sv jk n' G Hp E I Eg. rewrite kout_case in E. rewrite kgen_case in Eg.
+    exact (JP_block b IHb buf sc n env je old text jb n' G E I E1).
+  - (* KCase *) intros v vs b IHb rest IHr buf sc n env je old text sv jk n' G Hp E I Eg. rewrite kout_case in E. rewrite kgen_case in Eg.
     destruct (bgen mode buf ([] :: sc) n b) as [jb n1] eqn:E1. destruct (kgen mode buf sc n1 rest) as [jr n2] eqn:E2. inversion Eg; subst. clear Eg.
     destruct (khit ij env sv (v :: vs)) as [h|] eqn:Eh; [|discriminate].
     pose proof I as [ER Hb]. rewrite jk_exec_case.
     change (cgen sc v :: map (cgen sc) vs) with (map (cgen sc) (v :: vs)).
     rewrite (khit_js sc env je sv (v :: vs) ER Hp h Eh). cbn [bind].
-    pose proof (proj1 (proj2 (sgen_mono_all mode buf)) _ _ _ _ _ E1) as Hn1.
+    pose proof (proj1 (proj2 (sgen_mono_all mode)) _ _ _ _ _ _ E1) as Hn1.
     destruct h.
-    + exact (JP_block b IHb sc n env je old text jb n1 G E I E1).
-    + destruct (IHr sc n1 env je old text sv jr n' (ginv_mono _ _ _ _ Hn1 G) Hp E I E2) as (je' & X & Hb' & F).
+    + exact (JP_block b IHb buf sc n env je old text jb n1 G E I E1).
+    + destruct (IHr buf sc n1 env je old text sv jr n' (ginv_mono _ _ _ _ Hn1 G) Hp E I E2) as (je' & X & Hb' & F).
       exists je'. split; [exact X|]. split; [exact Hb'|]. eapply frame_trans; [exact Hn1|apply frame_refl|exact F].
 Qed.
 End JsStmts.
@@ -490,35 +542,37 @@ Qed.
 Lemma concat_b_app ws1 ws2 : concat_b (ws1 ++ ws2) = concat_b ws1 ++ concat_b ws2.
 Proof. induction ws1 as [|w r IH]; [reflexivity|]. cbn. rewrite IH, app_assoc. reflexivity. Qed.
 
-Definition gst (st : mstate) : Prop := bufs st = [] /\ calls_left st = None /\ bytes_left st = None.
-Lemma gst_pres st st' : pres st st' -> gst st -> gst st'.
-Proof. intros (_ & _ & _ & B & C & Y) (H1 & H2 & H3). repeat split; congruence. Qed.
+Lemma snode_letc name body : snode (SLetC name body) = NLetContent 0 name (NList 0 (bnodes body)). Proof. reflexivity. Qed.
+Lemma sdepth_letc name body : sdepth (SLetC name body) = S (S (bdepth body)). Proof. reflexivity. Qed.
 
 Definition envok (env : bstr -> option value) : Prop := forall k x, env k = Some x -> core_value x = true.
 Definition agrees (st : mstate) (env : bstr -> option value) : Prop := forall k, sc_lookup (ctx st) k = env k.
 Lemma agrees_pres st st' env : pres st st' -> agrees st env -> agrees st' env.
 Proof. intros P H k. rewrite (pres_ctx _ _ P). apply H. Qed.
 
-(* what a statement does to the renderer's state: it writes text; mode and writer stay as they were; the scope stack
+(* what a statement does to the renderer's state: it writes text to the current writer (wrote, of
+   Proofs/MiniJSStmt.v: the innermost capture buffer, or the output); the mode stays; the scope stack
    keeps its frames below the innermost one, and looking a variable up gives the environment after the statement *)
 Definition sres (m : M value) (st : mstate) (text : bstr) (env' : bstr -> option value) : Prop :=
-  exists st' ws rv, m st = (Ok rv, st') /\ out st' = rev ws ++ out st /\ concat_b ws = text /\ mode st' = mode st /\ gst st'
+  exists st' ws rv, m st = (Ok rv, st') /\ wrote st st' ws /\ concat_b ws = text /\ mode st' = mode st
                     /\ ctx st' <> [] /\ tl (ctx st') = tl (ctx st) /\ agrees st' env'.
-(* a command that restores the scope; [st0] is the state the output and the scope are compared with *)
+(* a command that restores the scope; [st0] is the state the writer and the scope are compared with *)
 Definition bres0 {A} (st0 : mstate) (m : M A) (st : mstate) (text : bstr) : Prop :=
-  exists st' ws rv, m st = (Ok rv, st') /\ out st' = rev ws ++ out st0 /\ concat_b ws = text /\ mode st' = mode st0 /\ gst st'
-                    /\ ctx st' = ctx st0.
+  exists st' ws rv, m st = (Ok rv, st') /\ wrote st0 st' ws /\ concat_b ws = text /\ mode st' = mode st0 /\ ctx st' = ctx st0.
 Notation bres m st text := (bres0 st m st text).
 
 Lemma bres0_pres {A} st0 (m : M A) st text : pres st0 st -> bres m st text -> bres0 st0 m st text.
 Proof.
-  intros (C & Mo & Ou & _) (st' & ws & rv & E & O & T & M' & G & X). exists st', ws, rv. repeat split; try congruence; apply G.
+  intros P (st' & ws & rv & E & W & T & M' & X). pose proof P as (C & Mo & _). exists st', ws, rv.
+  split; [exact E|]. split; [exact (wrote_l _ _ _ _ (pres_wsame _ _ P) W)|]. repeat split; congruence.
 Qed.
 Lemma bres0_ret {A} st0 (m : M A) st text : bres0 st0 m st text -> bres0 st0 (_ <-- m ;;; ret VUndef) st text.
 Proof. intros (st' & ws & rv & E & R). exists st', ws, VUndef. unfold mbind. rewrite E. split; [reflexivity|exact R]. Qed.
 Lemma bres_sres m st text env : bres m st text -> ctx st <> [] -> agrees st env -> sres m st text env.
 Proof.
-  intros (st' & ws & rv & E & O & T & M' & G & X) Hn Ha. exists st', ws, rv. repeat split; auto; try apply G; try congruence.
+  intros (st' & ws & rv & E & W & T & M' & X) Hn Ha. exists st', ws, rv.
+  split; [exact E|]. split; [exact W|]. split; [exact T|]. split; [exact M'|]. split; [congruence|]. split; [congruence|].
+  intro k. rewrite X. apply Ha.
 Qed.
 
 Section GoStmts.
@@ -551,18 +605,18 @@ Proof.
 Qed.
 
 Definition GP_s (s : cstmt) : Prop := forall f st text env env',
-  (sdepth s < f)%nat -> gst st -> ctx st <> [] -> agrees st env -> envok env ->
+  (sdepth s < f)%nat -> wok st -> ctx st <> [] -> agrees st env -> envok env ->
   sout (c_ij cf) (mode st) go_print_text env s = Some (text, env') -> sres (walk cf f (snode s)) st text env'.
 Definition GP_b (b : cblk) : Prop := forall f st text env,
-  (bdepth b <= f)%nat -> gst st -> ctx st <> [] -> agrees st env -> envok env ->
+  (bdepth b <= f)%nat -> wok st -> ctx st <> [] -> agrees st env -> envok env ->
   bout (c_ij cf) (mode st) go_print_text env b = Some text ->
-  exists st' ws, walk_list (walk cf f) (bnodes b) st = (Ok tt, st') /\ out st' = rev ws ++ out st /\ concat_b ws = text
-                 /\ mode st' = mode st /\ gst st' /\ tl (ctx st') = tl (ctx st).
+  exists st' ws, walk_list (walk cf f) (bnodes b) st = (Ok tt, st') /\ wrote st st' ws /\ concat_b ws = text
+                 /\ mode st' = mode st /\ tl (ctx st') = tl (ctx st).
 Definition GP_e (e : celse) : Prop := forall F st text env,
-  (edepth e < F)%nat -> gst st -> agrees st env -> envok env ->
+  (edepth e < F)%nat -> wok st -> agrees st env -> envok env ->
   eout (c_ij cf) (mode st) go_print_text env e = Some text -> bres (if_conds (walk cf F) (enodes e)) st text.
 Definition GP_k (k : ccases) : Prop := forall F st text env sv,
-  (kdepth k < F)%nat -> gst st -> agrees st env -> envok env ->
+  (kdepth k < F)%nat -> wok st -> agrees st env -> envok env ->
   kout (c_ij cf) (mode st) go_print_text env sv k = Some text -> bres (switch_cases (walk cf F) sv (knodes k)) st text.
 
 Lemma envok_set env k v : envok env -> core_value v = true -> envok (env_set env k v).
@@ -580,25 +634,67 @@ Proof.
     apply (ceval_core cf st) with (e := e); auto.
     + intros k x Hk. rewrite Ha in Hk. eapply Hc; eauto.
     + rewrite (ceval_ext _ _ env Ha). exact Ev.
+  - rewrite sout_letc. destruct (bstr_eqb name n_ij); [discriminate|]. destruct (bout (c_ij cf) mode go_print_text env body); [|discriminate].
+    intro E; inversion E; subst. apply envok_set; [exact Hc|reflexivity].
   - rewrite sout_if. destruct (ceval (c_ij cf) env c); [|discriminate]. destruct (if truthy v then _ else _); [|discriminate]. intro E; inversion E; subst; exact Hc.
   - rewrite sout_switch. destruct (ceval (c_ij cf) env v); [|discriminate]. destruct (prim_value v0); [|discriminate].
     destruct (kout (c_ij cf) mode go_print_text env v0 cs); [|discriminate]. intro E; inversion E; subst; exact Hc.
 Qed.
+
 (* a block: NList pushes an (empty) frame, walks its statements, pops *)
-Lemma go_block b F st text env : GP_b b -> (bdepth b < F)%nat -> gst st -> agrees st env -> envok env ->
+Lemma go_block b F st text env : GP_b b -> (bdepth b < F)%nat -> wok st -> agrees st env -> envok env ->
   bout (c_ij cf) (mode st) go_print_text env b = Some text -> bres (walk cf F (NList 0 (bnodes b))) st text.
 Proof.
   intros Hb Hd Hg Ha Hc E. destruct F as [|f]; [lia|]. unfold bres0. rewrite walk_unfold. cbn [walk_node].
   match goal with |- context [set_cur st ?p] => set (st1 := set_cur st p) end. unfold mbind at 1. unfold m_push. cbn [modify].
   set (st2 := set_ctx st1 (sc_push (ctx st1))).
-  assert (G2 : gst st2) by (subst st2 st1; exact Hg).
+  assert (S2 : wsame st st2) by (subst st2 st1; repeat split).
   assert (A2 : agrees st2 env) by (intro k; subst st2 st1; cbn; apply Ha).
   assert (M2 : mode st2 = mode st) by reflexivity.
   assert (N2 : ctx st2 <> []) by (subst st2; cbn; discriminate).
-  destruct (Hb f st2 text env ltac:(lia) G2 N2 A2 Hc) as (st3 & ws & E3 & O3 & C3 & M3 & G3 & X3). { rewrite M2. exact E. }
+  destruct (Hb f st2 text env ltac:(lia) (wsame_wok _ _ S2 Hg) N2 A2 Hc) as (st3 & ws & E3 & W3 & C3 & M3 & X3). { rewrite M2. exact E. }
   unfold mbind at 1. rewrite E3. unfold mbind at 1. unfold m_pop. cbn [modify ret].
-  exists (set_ctx st3 (sc_pop (ctx st3))), ws, VUndef. split; [reflexivity|]. cbn [out set_ctx ctx mode].
-  split; [rewrite O3; reflexivity|]. split; [exact C3|]. split; [congruence|]. split; [exact G3|]. unfold sc_pop. rewrite X3. reflexivity.
+  exists (set_ctx st3 (sc_pop (ctx st3))), ws, VUndef. split; [reflexivity|].
+  split; [apply (wrote_r _ st3); [exact (wrote_l _ _ _ _ S2 W3)|repeat split]|].
+  split; [exact C3|]. cbn [set_ctx ctx mode]. split; [congruence|]. unfold sc_pop. rewrite X3. reflexivity.
+Qed.
+
+(* renderBlock: a fresh capture buffer, the block, the buffer popped and returned as a string; any writer will do *)
+Lemma go_render_block b F st text env : GP_b b -> (bdepth b < F)%nat -> agrees st env -> envok env ->
+  bout (c_ij cf) (mode st) go_print_text env b = Some text ->
+  exists st', render_block (walk cf F) (NList 0 (bnodes b)) st = (Ok text, st') /\ wsame st st' /\ ctx st' = ctx st /\ mode st' = mode st.
+Proof.
+  intros Hb Hd Ha Hc E. unfold render_block. unfold mbind at 1. cbn [modify].
+  remember (set_bufs st ([] :: bufs st)) as st2 eqn:Hst2.
+  assert (B2 : bufs st2 = [] :: bufs st) by (subst st2; reflexivity).
+  assert (R2 : ctx st2 = ctx st /\ mode st2 = mode st /\ out st2 = out st /\ calls_left st2 = calls_left st /\ bytes_left st2 = bytes_left st)
+    by (subst st2; repeat split).
+  destruct R2 as (C2 & M2 & O2 & L2 & Y2). clear Hst2.
+  assert (W2 : wok st2) by (unfold wok; rewrite B2; exact I).
+  assert (A2 : agrees st2 env) by (intro k; rewrite C2; apply Ha).
+  destruct (go_block b F st2 text env Hb Hd W2 A2 Hc) as (st3 & ws & rv & E3 & W3 & T3 & M3 & X3). { rewrite M2. exact E. }
+  unfold mbind at 1. rewrite E3. unfold mbind at 1. cbn [get].
+  destruct W3 as (L3 & Y3 & W3). rewrite B2 in W3. destruct W3 as [B3 O3].
+  rewrite B3. unfold mbind at 1. cbn [modify ret].
+  eexists. split; [rewrite app_nil_r, rev_involutive, T3; reflexivity|].
+  unfold wsame. cbn [out bufs calls_left bytes_left ctx mode set_bufs]. repeat split; congruence.
+Qed.
+
+(* binding a name in the innermost frame (let) *)
+Lemma go_set st name v env : ctx st <> [] -> agrees st env ->
+  exists st', m_set name v st = (Ok tt, st') /\ wsame st st' /\ mode st' = mode st
+              /\ ctx st' <> [] /\ tl (ctx st') = tl (ctx st) /\ agrees st' (env_set env name v).
+Proof.
+  intros Hn Ha. unfold m_set. destruct (ctx st) as [|fr rs] eqn:Ec; [congruence|].
+  match goal with |- context [set_ctx ?a ?b] => set (st3 := set_ctx a b) end.
+  exists st3. split; [reflexivity|].
+  assert (H3 : out st3 = out st /\ mode st3 = mode st /\ bufs st3 = bufs st /\ calls_left st3 = calls_left st /\ bytes_left st3 = bytes_left st
+               /\ ctx st3 = sc_set (fr :: rs) name v).
+  { subst st3. destruct (sc_top_origin (fr :: rs)); cbn; auto 10. }
+  destruct H3 as (O3 & M3 & B3 & L3 & Y3 & C3).
+  split; [repeat split; assumption|]. split; [exact M3|]. split; [rewrite C3; cbn [sc_set]; discriminate|].
+  split; [rewrite C3; reflexivity|].
+  intro k. rewrite C3, sc_lookup_set by discriminate. unfold env_set. rewrite <- Ec. rewrite Ha. reflexivity.
 Qed.
 
 Theorem interp_all : (forall s, GP_s s) /\ (forall b, GP_b b) /\ (forall e, GP_e e) /\ (forall k, GP_k k).
@@ -606,38 +702,47 @@ Proof.
   apply cstmt_mutind.
   - (* raw text *) intros t f st text env env' Hf Hg Hn Ha Hc E. rewrite sout_raw in E. inversion E; subst.
     apply bres_sres; auto. destruct f as [|f]; [cbn in Hf; lia|]. unfold bres0. rewrite walk_unfold, snode_raw. cbn [walk_node].
-    unfold mbind at 1. unfold write. destruct Hg as (Hb & Hcl & Hy). cbn [bufs set_cur calls_left bytes_left]. rewrite Hb, Hcl, Hy.
-    eexists _, [text], VUndef. split; [reflexivity|]. cbn. rewrite app_nil_r. repeat split; auto.
+    match goal with |- context [set_cur st ?p] => set (st1 := set_cur st p) end.
+    assert (P1 : pres st st1) by apply pres_set_cur.
+    destruct (write_wok text st1 (wsame_wok _ _ (pres_wsame _ _ P1) Hg)) as (st2 & E2 & W2 & C2 & M2).
+    unfold mbind at 1. rewrite E2. exists st2, [text], VUndef. split; [reflexivity|].
+    split; [exact (wrote_l _ _ _ _ (pres_wsame _ _ P1) W2)|]. split; [cbn; apply app_nil_r|]. split; [exact M2|exact C2].
   - (* print *) intros e ds f st text env env' Hf Hg Hn Ha Hc E. rewrite sout_print in E.
     destruct (ceval (c_ij cf) env e) as [v|] eqn:Ev; [|discriminate]. destruct (scalar_string v) as [str|] eqn:Es; [|discriminate].
     destruct (cleanb str); [|discriminate]. inversion E; subst. clear E.
     apply bres_sres; auto. rewrite snode_print.
-    destruct (scalar_string_ok v str Es) as (Hp & Hvs & _). destruct Hg as (Hb & Hcl & Hy).
+    destruct (scalar_string_ok v str Es) as (Hp & Hvs & _).
     assert (Ev' : ceval (c_ij cf) (sc_lookup (ctx st)) e = Some v) by (rewrite (ceval_ext _ _ env' Ha); exact Ev).
-    destruct (interp_print_dirs cf e ds f st v str Hob Hb Hcl Hy) as (st' & ws & E1 & O1 & C1 & X1 & M1 & B1 & L1 & Y1); auto.
+    destruct (interp_print_dirs_w cf e ds f st v str Hob Hg) as (st' & ws & E1 & W1 & C1 & X1 & M1); auto.
     + intros k x Hk. rewrite Ha in Hk. eapply Hc; eauto.
     + cbn [sdepth] in Hf. lia.
     + destruct v; try discriminate; discriminate.
-    + exists st', ws, VUndef. repeat split; auto.
+    + exists st', ws, VUndef. split; [exact E1|]. split; [exact W1|]. split; [exact C1|]. split; [exact M1|exact X1].
   - (* let *) intros name e f st text env env' Hf Hg Hn Ha Hc E. rewrite sout_let in E.
     destruct (bstr_eqb name n_ij); [discriminate|]. destruct (ceval (c_ij cf) env e) as [v|] eqn:Ev; [|discriminate]. inversion E; subst. clear E.
     cbn [sdepth] in Hf. destruct f as [|f]; [lia|]. unfold sres. rewrite walk_unfold, snode_let. cbn [walk_node].
     match goal with |- context [set_cur st ?p] => set (st1 := set_cur st p) end.
     assert (P1 : pres st st1) by apply pres_set_cur.
     destruct (go_eval f e st1 v env (agrees_pres _ _ _ P1 Ha) Hc ltac:(lia) Ev) as (st2 & E2 & P2).
-    pose proof (pres_trans _ _ _ P1 P2) as P. pose proof P as (C & Mo & Ou & Bu & Cl & Bl).
-    unfold mbind at 1. rewrite E2. unfold mbind at 1. unfold m_set.
-    destruct (ctx st2) as [|fr rs] eqn:Ec2; [rewrite C in Ec2; congruence|].
-    match goal with |- context [set_ctx ?a ?b] => set (st3 := set_ctx a b) end. cbn [ret].
-    exists st3, [], VUndef. split; [reflexivity|].
-    assert (H3 : out st3 = out st2 /\ mode st3 = mode st2 /\ bufs st3 = bufs st2 /\ calls_left st3 = calls_left st2 /\ bytes_left st3 = bytes_left st2
-                 /\ ctx st3 = sc_set (fr :: rs) name v).
-    { subst st3. destruct (sc_top_origin (fr :: rs)); cbn; auto 10. }
-    destruct H3 as (O3 & M3 & B3 & L3 & Y3 & C3).
-    split; [cbn [rev app]; congruence|]. split; [reflexivity|]. split; [congruence|].
-    split; [destruct Hg as (Hb & Hcl & Hy); repeat split; congruence|].
-    split; [rewrite C3; cbn [sc_set]; discriminate|]. split; [rewrite C3, <- C; reflexivity|].
-    intro k. rewrite C3, sc_lookup_set by discriminate. unfold env_set. rewrite C. rewrite Ha. reflexivity.
+    pose proof (pres_trans _ _ _ P1 P2) as P. pose proof P as (C & Mo & _).
+    unfold mbind at 1. rewrite E2.
+    destruct (go_set st2 name v env ltac:(congruence) (agrees_pres _ _ _ P Ha)) as (st3 & E3 & S3 & M3 & N3 & T3 & A3).
+    unfold mbind at 1. rewrite E3. cbn [ret]. exists st3, [], VUndef. split; [reflexivity|].
+    split; [apply wsame_wrote; exact (wsame_trans _ _ _ (pres_wsame _ _ P) S3)|]. split; [reflexivity|]. split; [congruence|].
+    split; [exact N3|]. split; [congruence|exact A3].
+  - (* let, content form *) intros name body IHb f st text env env' Hf Hg Hn Ha Hc E. rewrite sout_letc in E.
+    destruct (bstr_eqb name n_ij); [discriminate|].
+    destruct (bout (c_ij cf) (mode st) go_print_text env body) as [t|] eqn:Et; [|discriminate]. inversion E; subst. clear E.
+    rewrite sdepth_letc in Hf. destruct f as [|F]; [lia|]. unfold sres. rewrite walk_unfold, snode_letc. cbn [walk_node].
+    match goal with |- context [set_cur st ?p] => set (st1 := set_cur st p) end.
+    assert (P1 : pres st st1) by apply pres_set_cur. pose proof P1 as (C1 & Mo1 & _).
+    destruct (go_render_block body F st1 t env IHb ltac:(lia) (agrees_pres _ _ _ P1 Ha) Hc) as (st4 & E4 & S4 & C4 & M4).
+    { rewrite Mo1. exact Et. }
+    unfold mbind at 1. rewrite E4.
+    destruct (go_set st4 name (VStr t) env ltac:(congruence) ltac:(intro k; rewrite C4, C1; apply Ha)) as (st5 & E5 & S5 & M5 & N5 & T5 & A5).
+    unfold mbind at 1. rewrite E5. cbn [ret]. exists st5, [], VUndef. split; [reflexivity|].
+    split; [apply wsame_wrote; exact (wsame_trans _ _ _ (wsame_trans _ _ _ (pres_wsame _ _ P1) S4) S5)|]. split; [reflexivity|].
+    split; [congruence|]. split; [exact N5|]. split; [congruence|exact A5].
   - (* if *) intros c th IHt rest IHr f st text env env' Hf Hg Hn Ha Hc E. rewrite sout_if in E.
     destruct (ceval (c_ij cf) env c) as [v|] eqn:Ev; [|discriminate].
     destruct (if truthy v then bout (c_ij cf) (mode st) go_print_text env th else eout (c_ij cf) (mode st) go_print_text env rest) as [t|] eqn:Et; [|discriminate].
@@ -648,11 +753,12 @@ Proof.
     destruct (go_eval F c st1 v env' (agrees_pres _ _ _ P1 Ha) Hc ltac:(lia) Ev) as (st2 & E2 & P2).
     pose proof (pres_trans _ _ _ P1 P2) as P. unfold mbind at 1. rewrite E2.
     assert (Mo : mode st2 = mode st) by apply P.
+    pose proof (wsame_wok _ _ (pres_wsame _ _ P) Hg) as Hg2.
     destruct (truthy v).
     + apply (bres0_pres st _ st2 text P). apply bres0_ret. apply (go_block th F st2 text env'); auto.
-      * lia. * eapply gst_pres; eauto. * eapply agrees_pres; eauto. * rewrite Mo. exact Et.
+      * lia. * eapply agrees_pres; eauto. * rewrite Mo. exact Et.
     + apply (bres0_pres st _ st2 text P). apply (IHr F st2 text env'); auto.
-      * lia. * eapply gst_pres; eauto. * eapply agrees_pres; eauto. * rewrite Mo. exact Et.
+      * lia. * eapply agrees_pres; eauto. * rewrite Mo. exact Et.
   - (* switch *) intros v cs IHk f st text env env' Hf Hg Hn Ha Hc E. rewrite sout_switch in E.
     destruct (ceval (c_ij cf) env v) as [sv|] eqn:Ev; [|discriminate]. destruct (prim_value sv); [|discriminate].
     destruct (kout (c_ij cf) (mode st) go_print_text env sv cs) as [t|] eqn:Et; [|discriminate]. inversion E; subst. clear E.
@@ -663,19 +769,22 @@ Proof.
     destruct (go_eval F v st1 sv env' (agrees_pres _ _ _ P1 Ha) Hc ltac:(lia) Ev) as (st2 & E2 & P2).
     pose proof (pres_trans _ _ _ P1 P2) as P. unfold mbind at 1. rewrite E2.
     assert (Mo : mode st2 = mode st) by apply P.
+    pose proof (wsame_wok _ _ (pres_wsame _ _ P) Hg) as Hg2.
     apply (bres0_pres st _ st2 text P). apply (IHk F st2 text env' sv); auto.
-    * lia. * eapply gst_pres; eauto. * eapply agrees_pres; eauto. * rewrite Mo. exact Et.
-  - (* BNil *) intros f st text env Hf Hg Hn Ha Hc E. rewrite bout_nil in E. inversion E; subst. exists st, []. repeat split; auto; apply Hg.
+    * lia. * eapply agrees_pres; eauto. * rewrite Mo. exact Et.
+  - (* BNil *) intros f st text env Hf Hg Hn Ha Hc E. rewrite bout_nil in E. inversion E; subst. exists st, [].
+    split; [reflexivity|]. split; [apply wsame_wrote, wsame_refl|auto].
   - (* BCons *) intros s IHs r IHr f st text env Hf Hg Hn Ha Hc E. rewrite bout_cons in E. rewrite bdepth_cons in Hf.
     destruct (sout (c_ij cf) (mode st) go_print_text env s) as [[a env1]|] eqn:Ea; [|discriminate].
     destruct (bout (c_ij cf) (mode st) go_print_text env1 r) as [c0|] eqn:Er; [|discriminate]. inversion E; subst. clear E.
-    destruct (IHs f st a env env1 ltac:(lia) Hg Hn Ha Hc Ea) as (st1 & ws1 & rv & E1 & O1 & C1 & M1 & G1 & N1 & T1 & A1).
+    destruct (IHs f st a env env1 ltac:(lia) Hg Hn Ha Hc Ea) as (st1 & ws1 & rv & E1 & W1 & C1 & M1 & N1 & T1 & A1).
     rewrite bnodes_cons. cbn [walk_list]. unfold mbind at 1. rewrite E1.
-    destruct (IHr f st1 c0 env1 ltac:(lia) G1 N1 A1 (go_envok st _ env s a env1 Ha Hc Ea)) as (st2 & ws2 & E2 & O2 & C2 & M2 & G2 & T2).
+    destruct (IHr f st1 c0 env1 ltac:(lia) (wrote_wok _ _ _ W1 Hg) N1 A1 (go_envok st _ env s a env1 Ha Hc Ea)) as (st2 & ws2 & E2 & W2 & C2 & M2 & T2).
     { rewrite M1. exact Er. }
-    exists st2, (ws1 ++ ws2). split; [exact E2|]. split; [rewrite O2, O1, rev_app_distr, app_assoc; reflexivity|].
-    split; [rewrite concat_b_app; congruence|]. repeat split; try congruence; apply G2.
-  - (* ENone *) intros F st text env Hf Hg Ha Hc E. rewrite eout_none in E. inversion E; subst. exists st, [], VUndef. repeat split; auto; apply Hg.
+    exists st2, (ws1 ++ ws2). split; [exact E2|]. split; [exact (wrote_trans _ _ _ _ _ W1 W2)|].
+    split; [rewrite concat_b_app; congruence|]. split; congruence.
+  - (* ENone *) intros F st text env Hf Hg Ha Hc E. rewrite eout_none in E. inversion E; subst. exists st, [], VUndef.
+    split; [reflexivity|]. split; [apply wsame_wrote, wsame_refl|auto].
   - (* EElse *) intros b IHb F st text env Hf Hg Ha Hc E. rewrite eout_else in E. rewrite edepth_else in Hf.
     rewrite enodes_else. cbn [if_conds]. apply bres0_ret. apply (go_block b F st text env); auto.
   - (* EElif *) intros c th IHt rest IHr F st text env Hf Hg Ha Hc E. rewrite eout_elif in E. rewrite edepth_elif in Hf.
@@ -683,12 +792,14 @@ Proof.
     rewrite enodes_elif. cbn [if_conds].
     destruct (go_eval F c st v env Ha Hc ltac:(lia) Ev) as (st2 & E2 & P). unfold bres0. unfold mbind at 1. rewrite E2.
     assert (Mo : mode st2 = mode st) by apply P.
+    pose proof (wsame_wok _ _ (pres_wsame _ _ P) Hg) as Hg2.
     destruct (truthy v).
     + apply (bres0_pres st _ st2 text P). apply bres0_ret. apply (go_block th F st2 text env); auto.
-      * lia. * eapply gst_pres; eauto. * eapply agrees_pres; eauto. * rewrite Mo. exact E.
+      * lia. * eapply agrees_pres; eauto. * rewrite Mo. exact E.
     + apply (bres0_pres st _ st2 text P). apply (IHr F st2 text env); auto.
-      * lia. * eapply gst_pres; eauto. * eapply agrees_pres; eauto. * rewrite Mo. exact E.
-  - (* KNone *) intros F st text env sv Hf Hg Ha Hc E. rewrite kout_none in E. inversion E; subst. exists st, [], VUndef. repeat split; auto; apply Hg.
+      * lia. * eapply agrees_pres; eauto. * rewrite Mo. exact E.
+  - (* KNone *) intros F st text env sv Hf Hg Ha Hc E. rewrite kout_none in E. inversion E; subst. exists st, [], VUndef.
+    split; [reflexivity|]. split; [apply wsame_wrote, wsame_refl|auto].
   - (* KDefault *) intros b IHb F st text env sv Hf Hg Ha Hc E. rewrite kout_default in E. rewrite kdepth_default in Hf.
     rewrite knodes_default. cbn [switch_cases case_hit]. unfold mbind at 1. cbn [ret orb]. apply bres0_ret. apply (go_block b F st text env); auto.
   - (* KCase *) intros v vs b IHb rest IHr F st text env sv Hf Hg Ha Hc E. rewrite kout_case in E. rewrite kdepth_case in Hf.
@@ -698,11 +809,12 @@ Proof.
     destruct (go_case_hit F env sv (v :: vs) Hc) with (st := st) (h := h) as (st2 & E2 & P); auto.
     { intros x [<-|Hx]; [lia|]. pose proof (cdepths_le x vs Hx). lia. }
     unfold bres0. unfold mbind at 1. rewrite E2. assert (Mo : mode st2 = mode st) by apply P.
+    pose proof (wsame_wok _ _ (pres_wsame _ _ P) Hg) as Hg2.
     destruct h; cbn [orb map].
     + apply (bres0_pres st _ st2 text P). apply bres0_ret. apply (go_block b F st2 text env); auto.
-      * lia. * eapply gst_pres; eauto. * eapply agrees_pres; eauto. * rewrite Mo. exact E.
+      * lia. * eapply agrees_pres; eauto. * rewrite Mo. exact E.
     + apply (bres0_pres st _ st2 text P). apply (IHr F st2 text env sv); auto.
-      * lia. * eapply gst_pres; eauto. * eapply agrees_pres; eauto. * rewrite Mo. exact E.
+      * lia. * eapply agrees_pres; eauto. * rewrite Mo. exact E.
 Qed.
 End GoStmts.
 
@@ -710,6 +822,8 @@ End GoStmts.
 (* the generator: the chunks of statements *)
 
 Lemma sprint_var ind g e : sprint ind (JSVar g e) = sp_ind ind ++ ([CText t_var; CName g; CText t_eq] ++ jprint e ++ [CText t_semi]) ++ [CText t_nl].
+Proof. reflexivity. Qed.
+Lemma sprint_varblock ind g body : sprint ind (JSVarBlock g body) = sp_ind ind ++ [CText t_var; CName g; CText t_eq_empty] ++ [CText t_nl] ++ bprint ind body.
 Proof. reflexivity. Qed.
 Lemma sprint_if ind c th rest : sprint ind (JSIf c th rest)
   = sp_ind ind ++ [CText t_if_open] ++ jprint c ++ [CText t_op_mid1; CText t_brace_nl] ++ bprint (S ind) th
@@ -806,7 +920,7 @@ Definition GQ_k (k : ccases) : Prop := forall F st jk n' i bf a sc n,
 
 Lemma sgen_scope mode buf sc n s j sc' n' : sgen mode buf sc n s = (j, (sc', n')) -> sc <> [] -> tl sc' = tl sc /\ sc' <> [].
 Proof.
-  intros H Hn. destruct (sgen_after _ _ _ _ _ _ _ _ H) as [->|(name & e & _ & -> & _)]; [auto|].
+  intros H Hn. destruct (sgen_after _ _ _ _ _ _ _ _ H) as [->|(name & -> & _)]; [auto|].
   destruct sc as [|f r]; [congruence|]. cbn. split; [reflexivity|discriminate].
 Qed.
 
@@ -904,6 +1018,32 @@ Proof.
     assert (H2 : shape st2 i bf a (aset fr name g :: rs) (n + 1)) by (subst st2; destruct st1; cbn in *; repeat split; assumption).
     destruct (gres_sln ([CText t_var; CName g; CText t_eq] ++ jprint (cgen (fr :: rs) e) ++ [CText t_semi]) st2 _ _ _ _ _ H2) as (stf & E & O & R).
     exists stf. split; [exact E|]. split; [exact O|exact R].
+  - (* let, content form *) intros name body IHb f st j sc' n' i bf a sc n Hf Hn Hs Eg. rewrite sgen_letc in Eg.
+    set (g := jsc_name name (n + 1)) in *.
+    destruct (bgen a g ([] :: sc) (n + 1) body) as [jb n1] eqn:E1. inversion Eg; subst. clear Eg.
+    rewrite sdepth_letc in Hf. destruct f as [|F]; [lia|]. rewrite snode_letc, sprint_varblock.
+    eapply gres_walk; [reflexivity|exact Hs|]. intros st1 (I1 & B1 & A1 & S1 & N1). cbn [jwalk_node].
+    (* the new name (not yet bound) becomes the buffer variable *)
+    set (st2 := set_buf g (set_scope sc (n + 1) st1)).
+    assert (E2 : (st0 <~ jget ;;
+                   g0 <~ jsc_genname name ;; jmod (set_buf g0) ;;; jsln [CText t_var; CName g0; CText t_eq_empty] ;;;
+                   jwalk o F (NList 0 (bnodes body)) ;;; jsc_bind name g0 ;;; jmod (set_buf (j_buf st0))) st1
+                 = (jsln [CText t_var; CName g; CText t_eq_empty] ;;; jwalk o F (NList 0 (bnodes body)) ;;; jsc_bind name g ;;; jmod (set_buf bf)) st2).
+    { unfold jbind at 1. unfold jget. unfold jbind at 1. unfold jsc_genname, jbind, jget, jmod, jret. cbn [j_n j_scope set_scope].
+      rewrite S1, N1, B1. reflexivity. }
+    unfold gres. rewrite E2.
+    assert (H2 : shape st2 i g a sc (n + 1)) by (subst st2; destruct st1; cbn in *; repeat split; assumption).
+    assert (Hmain : gres (jsln [CText t_var; CName g; CText t_eq_empty] ;;; jwalk o F (NList 0 (bnodes body)) ;;; jsc_bind name g ;;; jmod (set_buf bf)) st2
+                         ((sp_ind i ++ [CText t_var; CName g; CText t_eq_empty] ++ [CText t_nl]) ++ (bprint i jb ++ []))
+                         i bf a (jsc_bind_pure sc name g) n').
+    { eapply gres_bind. apply gres_sln; exact H2. intros x1 Hx1.
+      eapply gres_bind. apply (gen_nlist body F x1 jb n' i g a sc (n + 1) IHb ltac:(lia) Hx1 E1). intros x2 (I2 & B2 & A2 & S2 & N2).
+      destruct sc as [|fr rs]; [congruence|].
+      exists (set_buf bf (set_scope (aset fr name g :: rs) (j_n x2) x2)). split.
+      - unfold jbind at 1. unfold jsc_bind. unfold jbind at 1. unfold jget. rewrite S2. reflexivity.
+      - split; [destruct x2; reflexivity|]. destruct x2; cbn in *. repeat split; assumption. }
+    destruct Hmain as (stf & E & O & R). exists stf. split; [exact E|]. split; [|exact R].
+    rewrite O. subst st2. destruct st1; cbn. f_equal. f_equal. rewrite app_nil_r. rewrite <- !app_assoc. reflexivity.
   - (* if *) intros c th IHt rest IHr f st j sc' n' i bf a sc n Hf Hn Hs Eg. rewrite sgen_if in Eg.
     destruct (bgen a bf ([] :: sc) n th) as [jt n1] eqn:E1.
     destruct (egen a bf sc n1 rest) as [jr n2] eqn:E2. inversion Eg; subst. clear Eg.
@@ -996,7 +1136,7 @@ End StmtChunks.
    and the three resulting states are related by [sim] again (with the longer buffer text), so the theorem applies
    to the next statement. *)
 Definition sim (cf : cfg) (st : mstate) (je : jenv) (jst : jstate) (old : bstr) : Prop :=
-  gst st /\ ctx st <> []
+  wok st /\ ctx st <> []
   /\ env_rel (j_scope jst) (c_ij cf) (sc_lookup (ctx st)) je
   /\ ginv (j_scope jst) (j_n jst) (j_buf jst)
   /\ assoc_s (j_buf jst) (je_vars je) = Some (JStr old)
@@ -1013,7 +1153,7 @@ Definition sim_step (cf : cfg) (o : jopts) (st : mstate) (je : jenv) (jst : jsta
                     (text : bstr) (env' : bstr -> option value) (old : bstr) : Prop :=
   exists st' ws rv je' jst',
     let j := fst (sgen (mode st) (j_buf jst) (j_scope jst) (j_n jst) s) in
-    (* Go *)  walk cf fuel (snode s) st = (Ok rv, st') /\ out st' = rev ws ++ out st /\ concat_b ws = text
+    (* Go *)  walk cf fuel (snode s) st = (Ok rv, st') /\ wrote st st' ws /\ concat_b ws = text
               /\ mode st' = mode st /\ tl (ctx st') = tl (ctx st) /\ (forall k, sc_lookup (ctx st') k = env' k)
     (* JS *)  /\ js_exec je j = Ok je' /\ je_data je' = je_data je
     (* Gen *) /\ jwalk o fuel (snode s) jst = Ok (tt, jst') /\ j_out jst' = rev (sprint (j_indent jst) j) ++ j_out jst
@@ -1032,9 +1172,9 @@ Proof.
   assert (Hij : forall x, c_ij cf = Some x -> core_value x = true) by (intros x Hx; exact (er_core_ij _ _ _ _ ER x Hx)).
   (* Go *)
   destruct (proj1 (interp_all cf Hob Hij) s fuel st text (sc_lookup (ctx st)) env' Hf Hg Hn (fun k => eq_refl) Hc E)
-    as (st' & ws & rv & E1 & O1 & C1 & M1 & G1 & N1 & T1 & A1).
+    as (st' & ws & rv & E1 & W1 & C1 & M1 & N1 & T1 & A1).
   (* JS *)
-  destruct (proj1 (js_exec_all (c_ij cf) (mode st) (j_buf jst)) s (j_scope jst) (j_n jst) (sc_lookup (ctx st)) je old text env' j sc' n' G E (conj ER Hbuf) Eg)
+  destruct (proj1 (js_exec_all (c_ij cf) (mode st)) s (j_buf jst) (j_scope jst) (j_n jst) (sc_lookup (ctx st)) je old text env' j sc' n' G E (conj ER Hbuf) Eg)
     as (je' & E2 & (ER' & Hbuf') & (D2 & F2)).
   (* Gen *)
   destruct (proj1 (sgen_print_all o) s fuel jst j sc' n' (j_indent jst) (j_buf jst) (j_auto jst) (j_scope jst) (j_n jst) Hf (gi_nonempty _ _ _ G)
@@ -1045,10 +1185,10 @@ Proof.
   assert (G2 : ginv (j_scope jst') (j_n jst') (j_buf jst')).
   { rewrite S3, N3, B3. apply (ginv_after _ _ _ _ _ _ _ _ Eg G). }
   exists st', ws, rv, je', jst'.
-  split; [exact E1|]. split; [exact O1|]. split; [exact C1|]. split; [exact M1|]. split; [exact T1|]. split; [exact A1|].
+  split; [exact E1|]. split; [exact W1|]. split; [exact C1|]. split; [exact M1|]. split; [exact T1|]. split; [exact A1|].
   split; [exact E2|]. split; [exact D2|]. split; [exact E3|]. split; [exact O3|]. split; [exact I3|]. split; [exact B3|].
   split; [rewrite S3; exact Htl|].
-  unfold sim. split; [exact G1|]. split; [exact N1|]. split; [exact ER2|]. split; [exact G2|]. split; [rewrite B3; exact Hbuf'|congruence].
+  unfold sim. split; [exact (wrote_wok _ _ _ W1 Hg)|]. split; [exact N1|]. split; [exact ER2|]. split; [exact G2|]. split; [rewrite B3; exact Hbuf'|congruence].
 Qed.
 
 (* the stages by name *)
@@ -1062,13 +1202,19 @@ Theorem gen_correct_partial_let cf o st je jst name e fuel text env' old :
   sout (c_ij cf) (mode st) go_print_text (sc_lookup (ctx st)) (SLet name e) = Some (text, env') ->
   sim_step cf o st je jst (SLet name e) fuel text env' old.
 Proof. apply gen_correct_partial_stmt. Qed.
+Theorem gen_correct_partial_let_content cf o st je jst name body fuel text env' old :
+  c_oblig cf = [] -> (sdepth (SLetC name body) < fuel)%nat -> sim cf st je jst old ->
+  sout (c_ij cf) (mode st) go_print_text (sc_lookup (ctx st)) (SLetC name body) = Some (text, env') ->
+  sim_step cf o st je jst (SLetC name body) fuel text env' old.
+Proof. apply gen_correct_partial_stmt. Qed.
 Theorem gen_correct_partial_switch cf o st je jst v cs fuel text env' old :
   c_oblig cf = [] -> (sdepth (SSwitch v cs) < fuel)%nat -> sim cf st je jst old ->
   sout (c_ij cf) (mode st) go_print_text (sc_lookup (ctx st)) (SSwitch v cs) = Some (text, env') ->
   sim_step cf o st je jst (SSwitch v cs) fuel text env' old.
 Proof. apply gen_correct_partial_stmt. Qed.
 
-(* the general statement with sim and sim_step unfolded, as stated in Properties/C04.v *)
+(* the general statement with sim and sim_step unfolded, for a renderer that writes to its output (no capture
+   buffer, no budget), as stated in Properties/C04.v *)
 Theorem gen_correct_partial_stmt_unfolded : forall cf o st je jst s fuel text env' old,
   c_oblig cf = [] -> (sdepth s < fuel)%nat ->
   (* sim cf st je jst old *)
@@ -1093,9 +1239,14 @@ Theorem gen_correct_partial_stmt_unfolded : forall cf o st je jst s fuel text en
     /\ j_auto jst' = mode st'.
 Proof.
   intros cf o st je jst s fuel text env' old Hob Hf H1 H2 H3 H4 H5 H6 H7 H8 E.
-  destruct (gen_correct_partial_stmt cf o st je jst s fuel text env' old Hob Hf (conj (conj H1 (conj H2 H3)) (conj H4 (conj H5 (conj H6 (conj H7 H8))))) E)
-    as (st' & ws & rv & je' & jst' & A1 & A2 & A3 & A4 & A5 & A6 & A7 & A8 & A9 & A10 & A11 & A12 & A13 & ((B1 & B2 & B3) & B4 & B5 & B6 & B7 & B8)).
-  exists st', ws, rv, je', jst'. cbn zeta in *. repeat (split; [assumption|]). assumption.
+  assert (W : wok st) by (unfold wok; rewrite H1; auto).
+  destruct (gen_correct_partial_stmt cf o st je jst s fuel text env' old Hob Hf (conj W (conj H4 (conj H5 (conj H6 (conj H7 H8))))) E)
+    as (st' & ws & rv & je' & jst' & A1 & A2 & A3 & A4 & A5 & A6 & A7 & A8 & A9 & A10 & A11 & A12 & A13 & (B1 & B4 & B5 & B6 & B7 & B8)).
+  destruct (wrote_out _ _ _ H1 A2) as [Hb Ho]. destruct A2 as (Hcl & Hby & _).
+  exists st', ws, rv, je', jst'. cbn zeta in *.
+  split; [exact A1|]. split; [exact Ho|]. split; [exact A3|]. split; [exact A4|]. split; [exact A5|]. split; [exact A6|].
+  split; [exact A7|]. split; [exact A8|]. split; [exact A9|]. split; [exact A10|]. split; [exact A11|]. split; [exact A12|]. split; [exact A13|].
+  split; [exact Hb|]. split; [congruence|]. split; [congruence|]. split; [exact B4|]. split; [exact B5|]. split; [exact B6|]. split; [exact B7|exact B8].
 Qed.
 
 (* names without an underscore are never generated names *)
@@ -1115,5 +1266,5 @@ Theorem js_exec_stmt : forall ij mode buf s sc n env je old text env' j sc' n',
         /\ forall g, bounded n g -> bstr_eqb g buf = false -> assoc_s g (je_vars je') = assoc_s g (je_vars je)).
 Proof.
   intros ij mode buf s sc n env je old text env' j sc' n' G E ER Hb Eg.
-  exact (proj1 (js_exec_all ij mode buf) s sc n env je old text env' j sc' n' G E (conj ER Hb) Eg).
+  exact (proj1 (js_exec_all ij mode) s buf sc n env je old text env' j sc' n' G E (conj ER Hb) Eg).
 Qed.
